@@ -15,7 +15,7 @@ import base64
 import json
 import random
 
-from .. import endpoint, gen, tlc, lifecycle, paramwire
+from .. import endpoint, gen, tlc, lifecycle, mediatype, paramwire
 from ..common import rmtree, scratch, seed
 
 WIRE = {"str": "tok", "int": "7", "float": "1.5", "bool": "true", "enum": "a", "date": "2020-01-02", "uuid": "12345678-1234-5678-1234-567812345678"}
@@ -215,6 +215,9 @@ def run(rep) -> None:
         # ParamWire.tla: every accepted parameter [location, kind, required, nullable, enum style] x every value class its annotation admits:
         # what is placed determines the argument (W2), blocking = asyncio
         paramwire.judge(rep, "C03", d)
+        # MediaType.tla: every request-body media type (type x subtype x parameter x capitals x override) is sent through the httpx argument of its
+        # class (M4) with the Content-Type as written
+        mediatype.judge(rep, "C03", d)
     finally:
         rmtree(d)
     rep.rule = ("every operation of Endpoint.tla's request universe (<=1 parameter exhaustively + sampled/all pairs, 9 body kinds, secured or not) x every "
